@@ -125,6 +125,12 @@ CLAIMED = {
             "Outcome is success, an h2 exception or ValueError/TypeError; StreamClosedError vs "
             "NoSuchStreamError decided against the high-water marks; a raising call leaves the "
             "output buffer untouched.", "7/C29"),
+    'C18': ("whenever a symbolic step of the catalogue engine (peer-frame alphabet) raises, the "
+            "GOAWAY rule is checked and the code compared with the C06 oracle; plus one symbolic "
+            "harness per violation category (frame size vs symbolic MAX_FRAME_SIZE, parser "
+            "failure as a solver choice, window violations, HPACK failure as a solver choice)",
+            "Exactly one GOAWAY, code == exception code == category code, last-stream-id == "
+            "highest peer-opened id and never changing after the first GOAWAY.", "7/C18"),
 }
 
 NOT_YET = {}
